@@ -43,6 +43,21 @@ def run(ctx):
     for c in corpus.single_fault_cases(names, kinds=("raise", "status_fail")):
         c["probe"] = "run"
         cases.append(c)
+    # a pause / suspension at every callback boundary of the monitor plan while the n-th removal (or re-installation)
+    # of a monitor callback fails once: the call fails or goes on, and the engine's clean-up still has to remove it
+    n = corpus.n_handles("monitor")
+    for k in range(0, n + 2, ctx.pick(2, 1)):
+        for kind in ("pause", "suspend"):
+            for op, nth in (("clear_sub", 1), ("clear_sub", 2), ("subscribe", 2)):
+                for dec in ("resume", "abort"):
+                    c = corpus.base_case("monitor")
+                    inj = {"at": k, "do": kind}
+                    if kind == "suspend":
+                        inj["release_after"] = 0.3
+                    c["stages"] = [{"do": "call", "inj": [inj]}, {"do": dec}]
+                    c["faults"] = [{"dev": "s1", "op": op, "n": nth, "kind": "raise"}]
+                    c["probe"] = "run"
+                    cases.append(c)
     ctx.sweep(cases, check_case)
     ctx.extra["sweep_cases"] = len(cases)
     e1common.generated(ctx, check_case, n=ctx.pick(800, 30000), profile="general_runprobe")
